@@ -95,6 +95,11 @@ def _master_subs(tier):
                 # capacities / demands concrete (two regimes): time is the
                 # subject here
                 for cap in ((8, 8), (4, 8)):
+                    if gap == 'sym' and (back.startswith('failover') or
+                                         cap != (8, 8)):
+                        # a new master reads the clock into datetime (reboot
+                        # schedule): the clock has to be concrete there
+                        continue
                     spec = {'level': 'master', 'nservers': 2, 'back': back,
                             'gap': gap, 'regime_dems': [3, 3, 3, 3],
                             'servers': [{'memory': c} for c in cap],
